@@ -355,7 +355,7 @@ def invalid_corpus(tier, seed):
     for r in WRONG_REGS:
         raws += ["{v},%s" % r, ",%s" % r, "[{v},%s]" % r, ",%s+" % r, ",-%s" % r, "A,%s" % r]
     raws += ["{v},", "{v},,X", ",", ",,", "[{v}", "{v}]", "[{v},X", "{v},X]", "[[{v}]]", "[]", "[,]", "#", "#,X", "<", ">",
-             "{v},X,Y", ",X+++", ",---X", ",+X", ",X-", "{v},X+", "{v},-X", "A,X+", "B,--Y", "D,X++", "[{v},X+]",
+             "{v},X,Y", ",X+++", ",---X", ",+X", ",X-", ",-X+", ",-X++", ",--X+", ",--Y++", "[,-X++]", "[,-X+]", "[,--U+]", "{v},X+", "{v},-X", "A,X+", "B,--Y", "D,X++", "[{v},X+]",
              "#{v},X", "{v},PC", "{v},PCR,X", "[{v},PCR", "E,X", "{v}+,X",
              "{v}*", "#-", "-", "$", "%", "'", "#'", "#$", "#%", "$,X", "{v}@", "@", "A,",
              "X,{v}", "X,Y", "PCR", ",PCR", "[,PCR]", "A,PCR", "{v},S+", "#{v}#", "##{v}", "<<{v}", "><{v}", "<>{v}",
@@ -432,6 +432,9 @@ def mutation_lines(tier, seed):
             "A SET", " INCLUDE", " END 5", " END X", " NAM 1234567890ABC", " SETDP $100", " FCB 'A", " FCB '", " FCB #5",
             " FCB <5", " FCB [5]", " FDB 'A,'B", " FCB $", " FCB %", " FCB %2", " FCB $G", " FCB -", " FCB --1", " FCB 1-",
             " FCB 1+", " FCB 1+2", " FCB 1/0", " LDA #1/0", " LDA 1/0", "A EQU 1/0", " FDB 1/0", " LDA #5/0,X", " LDA 5/0,X",
+            " LDX #SCREENBUFFERSTARTADDRESSTABLE00001!", " STA SCREENBUFFERSTARTADDRESSTABLE00001.", " LDA SCREENBUFFERSTARTADDRESSTABLE00001&,X",
+            " LDA #AAAAAAAAAAAAAAAAAAAAAAAAAAAAAAAAAAAAAAAAAAAAAAAA?", " JMP 0000000000000000000000000000000000000000000000000000!",
+            "LONGLABELLONGLABELLONGLABELLONGLABELLONGLABEL0123456789 NOP", " FCB 1,2,3,4,5,6,7,8,9,10,11,12,13,14,15,16,17,18,19,20,21,22,23,24,25,26,27,28,29,30!",
             "\t", " ", "", ";", " ;", "; c", "*", "* c", "LBL:", "LBL: NOP", "1 NOP", "@ NOP", "@@ NOP ", "LBL NOP X",
             " NOP NOP", "  ", " LDA", " LDA ", "LDA #1", " LDA\t#1", "\tLDA\t#1\t; c", " LDA #1;c", " LDA #1 c"]
     seen = set()
